@@ -139,3 +139,403 @@ def install_multicast(ncp, table: MulticastTable):
 
     ncp.handlers.update(getConfigurationValue=get_cfg, getMulticastTableEntry=get_entry, setMulticastTableEntry=set_entry)
     return table
+
+
+# ---- network / security / tables (Appendix A) ------------------------------------------------
+class InvalidCmd(Exception):
+    """Handler wants the NCP to answer invalidCommand (command not implemented by the firmware)."""
+
+
+CFG_KEY_TABLE_SIZE, CFG_ADDRESS_TABLE_SIZE, CFG_SECURITY_LEVEL = 0x1E, 0x05, 0x0D
+VAL_FREE_BUFFERS, VAL_VERSION_INFO, VAL_NWK_FC, VAL_APS_FC = 0x03, 0x11, 0x23, 0x24
+NV3_CREATOR_RESTORED_EUI64, NV3_NVM3_RESTORED_EUI64 = 0xE12A, 0x1E12A
+MFG_STRING, MFG_BOARD_NAME, MFG_CUSTOM_EUI_64 = 0x01, 0x02, 0x0C
+FF8 = b"\xff" * 8
+INIT_HASHED = 0x0084
+INIT_HAVE_TC_EUI64 = 0x0040
+
+
+class NetState:
+    def __init__(self, eui64=bytes(range(0x10, 0x18)), nv3_token=NV3_CREATOR_RESTORED_EUI64):
+        self.eui64_factory = bytes(eui64)
+        self.nv3_token = nv3_token  # None: firmware without the NV3 token interface
+        self.nv3_eui64 = None
+        self.mfg = {MFG_STRING: b"Acme".ljust(16, b"\xff"), MFG_BOARD_NAME: b"Board-1".ljust(16, b"\xff"),
+                    MFG_CUSTOM_EUI_64: FF8}
+        self.network = None  # dict(params=<EmberNetworkParameters>, node_type, node_id)
+        self.stack_up = False
+        self.security = None  # dict(bitmask, preconfigured, network_key, seq, tc_eui64)
+        self.nwk_fc = 0
+        self.aps_fc = 0
+        self.key_table = {}  # index -> dict(eui64, key, out_fc, in_fc)
+        self.children = {}  # index -> dict(eui64, nwk, type)
+        self.address_table = {}  # index -> (nwk, eui64)
+        self.policies = {}
+        self.counters = [0] * 41
+        self.free_buffers = 0xF0
+        self.log = []  # noteworthy requests, e.g. ("setInitialSecurityState", raw bytes)
+        self.resets = 0
+
+    def eui64(self):
+        if self.nv3_eui64 is not None:
+            return self.nv3_eui64
+        if self.mfg[MFG_CUSTOM_EUI_64] != FF8:
+            return self.mfg[MFG_CUSTOM_EUI_64]
+        return self.eui64_factory
+
+
+def install_network(ncp, net: NetState | None = None, store: ConfigStore | None = None):
+    import bellows.types as t
+
+    net = net or NetState()
+    ncp.state["net"] = net
+    store = install_config(ncp, store or ncp.state.get("config") or ConfigStore())
+    store.values.setdefault(CFG_KEY_TABLE_SIZE, 4)
+    store.values.setdefault(CFG_ADDRESS_TABLE_SIZE, 8)
+    store.values.setdefault(CFG_SECURITY_LEVEL, 5)
+    store.values.setdefault(CONFIG_MULTICAST_TABLE_SIZE, 8)
+    mtab = ncp.state.get("multicast") or MulticastTable([(0, 0, 0)] * 8)
+    install_multicast(ncp, mtab)
+    cfg_get_multicast = ncp.handlers["getConfigurationValue"]
+
+    def S(cmd, kind, field="status"):
+        return status(ncp, cmd, kind, field)
+
+    def eui(b):
+        return t.EUI64.deserialize(bytes(b))[0]
+
+    def stack_status(kind, delay=0.01):
+        ncp.callback("stackStatusHandler", [S("stackStatusHandler", kind)], delay)
+
+    def on_reset():
+        net.stack_up = False
+        net.resets += 1
+
+    ncp.on_reset = on_reset
+
+    # .. configuration values with live table sizes
+    def get_cfg(n, a):
+        cid = int(a["configId"])
+        if cid == CONFIG_MULTICAST_TABLE_SIZE:
+            return cfg_get_multicast(n, a)
+        if cid in store.unreadable or cid not in store.values:
+            return [S("getConfigurationValue", "invalid_id"), 0]
+        return [S("getConfigurationValue", "ok"), store.values[cid]]
+
+    def get_val(n, a):
+        vid = int(a["valueId"])
+        if vid == VAL_VERSION_INFO:
+            return [S("getValue", "ok"), bytes([0x2A, 0x01, 7, 4, 1, 0, 0])]  # build 298, 7.4.1.0
+        if vid == VAL_FREE_BUFFERS:
+            return [S("getValue", "ok"), bytes([net.free_buffers])]
+        if vid in store.unreadable_values or vid not in store.ezsp_values:
+            return [S("getValue", "invalid_id"), b""]
+        return [S("getValue", "ok"), store.ezsp_values[vid]]
+
+    def set_val(n, a):
+        vid, val = int(a["valueId"]), bytes(a["value"])
+        if vid in (VAL_NWK_FC, VAL_APS_FC):
+            if net.stack_up or len(val) != 4:
+                return [S("setValue", "invalid_call")]
+            fc = int.from_bytes(val, "little")
+            if vid == VAL_NWK_FC:
+                net.nwk_fc = fc
+            else:
+                net.aps_fc = fc
+            net.log.append(("frame_counter", vid, fc))
+            return [S("setValue", "ok")]
+        ok = vid not in store.reject_values
+        store.log.append(("val", vid, val, ok))
+        if ok:
+            store.ezsp_values[vid] = val
+            return [S("setValue", "ok")]
+        return [S("setValue", "invalid_value")]
+
+    # .. network
+    def network_state(n, a):
+        return [2 if net.stack_up else 0]
+
+    def network_init(name):
+        def h(n, a):
+            if net.network is None:
+                return [S(name, "not_joined")]
+            net.stack_up = True
+            stack_status("network_up")
+            return [S(name, "ok")]
+        return h
+
+    def zero_params():
+        return t.EmberNetworkParameters.deserialize(bytes(40))[0]
+
+    def get_params(n, a):
+        if not net.stack_up:
+            return [S("getNetworkParameters", "not_joined"), 0, zero_params()]
+        return [S("getNetworkParameters", "ok"), net.network["node_type"], net.network["params"]]
+
+    def form(n, a):
+        if net.stack_up:
+            return [S("formNetwork", "invalid_call")]
+        net.network = {"params": a["parameters"], "node_type": 1, "node_id": 0x0000}
+        net.stack_up = True
+        net.log.append(("formNetwork", a["parameters"]))
+        stack_status("network_up")
+        return [S("formNetwork", "ok")]
+
+    def leave(n, a):
+        if not net.stack_up:
+            return [S("leaveNetwork", "invalid_call")]
+        net.stack_up = False
+        net.network = None
+        net.security = None
+        net.children.clear()
+        stack_status("network_down")
+        return [S("leaveNetwork", "ok")]
+
+    def node_id(n, a):
+        return [net.network["node_id"] if net.network else 0xFFFE]
+
+    def get_eui64(n, a):
+        return [eui(net.eui64())]
+
+    # .. security
+    def cur_sec(n, a):
+        z = t.EmberCurrentSecurityState.deserialize(bytes(12))[0]
+        if not net.stack_up or net.security is None:
+            return [S("getCurrentSecurityState", "not_joined"), z]
+        st = t.EmberCurrentSecurityState()
+        bm = 0x10 | 0x04
+        if net.security["bitmask"] & INIT_HASHED == INIT_HASHED:
+            bm |= INIT_HASHED
+        st.bitmask = t.EmberCurrentSecurityBitmask(bm)
+        st.trustCenterLongAddress = eui(net.eui64())  # a coordinator is its own trust centre
+        return [S("getCurrentSecurityState", "ok"), st]
+
+    def set_init_sec(n, a):
+        s = a["state"]
+        if net.stack_up:
+            return [S("setInitialSecurityState", "invalid_call")]
+        net.security = dict(bitmask=int(s.bitmask), preconfigured=bytes(s.preconfiguredKey.serialize()),
+                            network_key=bytes(s.networkKey.serialize()), seq=int(s.networkKeySequenceNumber),
+                            tc_eui64=bytes(s.preconfiguredTrustCenterEui64.serialize()))
+        net.log.append(("setInitialSecurityState", ncp.requests[-1][4]))
+        return [S("setInitialSecurityState", "ok")]
+
+    def keydata(b):
+        return t.KeyData.deserialize(bytes(b))[0]
+
+    def key_struct(ktype, key, out_fc=None, in_fc=None, seq=None, partner=None):
+        ks = t.EmberKeyStruct()
+        bm = 0
+        ks.type = t.EmberKeyType(ktype)
+        ks.key = keydata(key)
+        ks.outgoingFrameCounter = t.uint32_t(out_fc or 0)
+        ks.incomingFrameCounter = t.uint32_t(in_fc or 0)
+        ks.sequenceNumber = t.uint8_t(seq or 0)
+        ks.partnerEUI64 = eui(partner if partner is not None else bytes(8))
+        if seq is not None:
+            bm |= 0x01
+        if out_fc is not None:
+            bm |= 0x02
+        if in_fc is not None:
+            bm |= 0x04
+        if partner is not None:
+            bm |= 0x08
+        ks.bitmask = t.EmberKeyStructBitmask(bm)
+        return ks
+
+    def get_key(n, a):
+        kt = int(a["keyType"])
+        z = key_struct(kt, bytes(16))
+        if not net.stack_up or net.security is None:
+            return [S("getKey", "not_joined"), z]
+        if kt == 0x03:
+            return [S("getKey", "ok"), key_struct(kt, net.security["network_key"], out_fc=net.nwk_fc, seq=net.security["seq"])]
+        if kt == 0x01:
+            return [S("getKey", "ok"), key_struct(kt, net.security["preconfigured"], out_fc=net.aps_fc, partner=FF8)]
+        return [S("getKey", "not_found"), z]
+
+    def export_key(n, a):
+        ctx = a["context"]
+        kt = int(ctx.core_key_type)
+        out = {"context": ctx, "key": keydata(bytes(16)), "status": S("exportKey", "not_found")}
+        if net.security is not None:
+            if kt == 0x01:
+                out.update(key=keydata(net.security["network_key"]), status=S("exportKey", "ok"))
+            elif kt == 0x02:
+                out.update(key=keydata(net.security["preconfigured"]), status=S("exportKey", "ok"))
+        return out
+
+    def nwk_key_info(n, a):
+        info = t.SecurityManagerNetworkKeyInfo()
+        have = net.security is not None
+        info.network_key_set = t.Bool(1 if have else 0)
+        info.alternate_network_key_set = t.Bool(0)
+        info.network_key_sequence_number = t.uint8_t(net.security["seq"] if have else 0)
+        info.alt_network_key_sequence_number = t.uint8_t(0)
+        info.network_key_frame_counter = t.uint32_t(net.nwk_fc)
+        return {"status": S("getNetworkKeyInfo", "ok"), "network_key_info": info}
+
+    def kt_size():
+        return store.values.get(CFG_KEY_TABLE_SIZE, 0)
+
+    def get_kt_entry(n, a):
+        i = int(a["index"])
+        z = key_struct(0x05, bytes(16))
+        if i >= kt_size():
+            return [S("getKeyTableEntry", "invalid_index"), z]
+        e_ = net.key_table.get(i)
+        if e_ is None:
+            return [S("getKeyTableEntry", "erased"), z]
+        return [S("getKeyTableEntry", "ok"),
+                key_struct(0x05, e_["key"], out_fc=e_["out_fc"], in_fc=e_["in_fc"], partner=e_["eui64"])]
+
+    def add_kt_entry(n, a):
+        addr = bytes(a["address"].serialize())
+        idx = next((i for i, e_ in net.key_table.items() if e_["eui64"] == addr), None)
+        if idx is None:
+            idx = next((i for i in range(kt_size()) if i not in net.key_table), None)
+        if idx is None:
+            return [S("addOrUpdateKeyTableEntry", "fatal")]
+        net.key_table[idx] = dict(eui64=addr, key=bytes(a["keyData"].serialize()), out_fc=0, in_fc=0)
+        return [S("addOrUpdateKeyTableEntry", "ok")]
+
+    def import_link_key(n, a):
+        i = int(a["index"])
+        if i >= kt_size():
+            return [S("importLinkKey", "invalid_index")]
+        net.key_table[i] = dict(eui64=bytes(a["address"].serialize()), key=bytes(a["key"].serialize()), out_fc=0, in_fc=0)
+        return [S("importLinkKey", "ok")]
+
+    def export_link_key(n, a):
+        i = int(a["index"])
+        e_ = net.key_table.get(i) if i < kt_size() else None
+        meta = t.SecurityManagerAPSKeyMetadata()
+        meta.bitmask = t.EmberKeyStructBitmask(0x0E if e_ else 0)
+        meta.outgoing_frame_counter = t.uint32_t(e_["out_fc"] if e_ else 0)
+        meta.incoming_frame_counter = t.uint32_t(e_["in_fc"] if e_ else 0)
+        meta.ttl_in_seconds = t.uint16_t(0)
+        ctx = t.SecurityManagerContextV13.deserialize(bytes(17))[0]
+        ctx.core_key_type = t.SecurityManagerKeyType(0x04)
+        ctx.key_index = t.uint8_t(i)
+        if e_:
+            ctx.eui64 = eui(e_["eui64"])
+            ctx.flags = t.SecurityManagerContextFlags(0x01 | 0x02) if hasattr(t, "SecurityManagerContextFlags") else ctx.flags
+        return {"status": S("exportLinkKeyByIndex", "ok" if e_ else "not_found"), "context": ctx,
+                "eui64": eui(e_["eui64"] if e_ else bytes(8)), "plaintext_key": keydata(e_["key"] if e_ else bytes(16)),
+                "key_data": meta}
+
+    def clear_kt(n, a):
+        net.key_table.clear()
+        return [S("clearKeyTable", "ok")]
+
+    def token_factory_reset(n, a):
+        net.network = None
+        net.security = None
+        net.stack_up = False
+        net.children.clear()
+        net.key_table.clear()
+        net.nwk_fc = net.aps_fc = 0
+        return []
+
+    # .. children / address table
+    def get_child(n, a):
+        i = int(a["index"])
+        c = net.children.get(i)
+        ver = n.table_version
+        cd_cls = t.EmberChildDataV10 if ver >= 10 else t.EmberChildDataV7
+        cd = cd_cls.deserialize(bytes(32))[0]
+        if c is not None:
+            cd.eui64, cd.type, cd.id = eui(c["eui64"]), t.EmberNodeType(c["type"]), t.EmberNodeId(c["nwk"])
+        st_ = S("getChildData", "ok" if c else "not_joined")
+        return {"status": st_, "childId": c["nwk"] if c else 0xFFFF, "childEui64": eui(c["eui64"] if c else FF8),
+                "childType": c["type"] if c else 0, "childData": cd, "child_data": cd}
+
+    def set_child(n, a):
+        cd = a["child_data"]
+        net.children[int(a["index"])] = dict(eui64=bytes(cd.eui64.serialize()), nwk=int(cd.id), type=int(cd.type))
+        return [S("setChildData", "ok")]
+
+    def at_size():
+        return store.values.get(CFG_ADDRESS_TABLE_SIZE, 0)
+
+    def at_node(n, a):
+        e_ = net.address_table.get(int(a["addressTableIndex"]))
+        return [e_[0] if e_ else 0xFFFF]
+
+    def at_eui(n, a):
+        e_ = net.address_table.get(int(a["addressTableIndex"]))
+        return [eui(e_[1] if e_ else bytes(8))]
+
+    def at_info(n, a):
+        i = int(a["index"])
+        e_ = net.address_table.get(i)
+        if i >= at_size() or e_ is None:
+            return {"status": S("getAddressTableInfo", "not_found" if i < at_size() else "invalid_index"),
+                    "nwk": 0xFFFF, "eui64": eui(bytes(8))}
+        return {"status": S("getAddressTableInfo", "ok"), "nwk": e_[0], "eui64": eui(e_[1])}
+
+    # .. tokens
+    def get_mfg(n, a):
+        return [net.mfg.get(int(a["tokenId"]), b"")]
+
+    def set_mfg(n, a):
+        tid = int(a["tokenId"])
+        if tid == MFG_CUSTOM_EUI_64 and net.mfg[tid] == FF8:
+            net.mfg[tid] = bytes(a["tokenData"])
+            return [S("setMfgToken", "ok")]
+        return [S("setMfgToken", "fatal")]
+
+    def get_token(n, a):
+        if net.nv3_token is None:
+            raise InvalidCmd()
+        schema = n.COMMANDS["getTokenData"][2]
+        tok = int(a["token"])
+        if tok == net.nv3_token:
+            val = net.nv3_eui64 if net.nv3_eui64 is not None else FF8
+            return schema(status=schema.deserialize(bytes(8))[0].status.__class__(0), value=t.LVBytes32(val))
+        fam = type(schema.deserialize(bytes(8))[0].status)
+        bad = SL["not_found"] if fam.__name__ == "sl_Status" else EMBER["fatal"]
+        return schema(status=fam(bad), value=t.LVBytes32(b""))
+
+    def set_token(n, a):
+        if net.nv3_token is None:
+            raise InvalidCmd()
+        if int(a["token"]) == net.nv3_token:
+            data = bytes(a["token_data"])
+            net.nv3_eui64 = None if data == FF8 else data
+            return [S("setTokenData", "ok")]
+        return [S("setTokenData", "fatal")]
+
+    def read_counters(n, a):
+        return [list(net.counters)]
+
+    def read_clear_counters(n, a):
+        v = list(net.counters)
+        net.counters = [0] * len(net.counters)
+        return [v]
+
+    def ok_of(name):
+        return lambda n, a: [S(name, "ok")]
+
+    H = dict(
+        getConfigurationValue=get_cfg, getValue=get_val, setValue=set_val, networkState=network_state,
+        networkInit=network_init("networkInit"), networkInitExtended=network_init("networkInitExtended"),
+        getNetworkParameters=get_params, formNetwork=form, leaveNetwork=leave, getNodeId=node_id, getEui64=get_eui64,
+        getCurrentSecurityState=cur_sec, setInitialSecurityState=set_init_sec, getKey=get_key, exportKey=export_key,
+        getNetworkKeyInfo=nwk_key_info, getKeyTableEntry=get_kt_entry, addOrUpdateKeyTableEntry=add_kt_entry,
+        importLinkKey=import_link_key, exportLinkKeyByIndex=export_link_key, clearKeyTable=clear_kt,
+        tokenFactoryReset=token_factory_reset, getChildData=get_child, setChildData=set_child,
+        getAddressTableRemoteNodeId=at_node, getAddressTableRemoteEui64=at_eui, getAddressTableInfo=at_info,
+        getMfgToken=get_mfg, setMfgToken=set_mfg, getTokenData=get_token, setTokenData=set_token,
+        readCounters=read_counters, readAndClearCounters=read_clear_counters,
+        nop=lambda n, a: [], setManufacturerCode=lambda n, a: [],
+        setSourceRouteDiscoveryMode=lambda n, a: [0],
+        findKeyTableEntry=lambda n, a: [0xFF],
+    )
+    for name in ("setPolicy", "setConcentrator", "addEndpoint", "permitJoining", "addTransientLinkKey",
+                 "importTransientKey", "eraseKeyTableEntry", "setSourceRoute"):
+        H[name] = ok_of(name)
+    for name, h in H.items():
+        if name in ncp.COMMANDS:
+            ncp.handlers[name] = h
+    return net
